@@ -79,9 +79,10 @@ impl ElixirRange {
         if self.is_empty() {
             return 0;
         }
-        let diff = (self.last - self.first).abs();
-        let step = self.step.abs();
-        ((diff / step) + 1) as usize
+        // The span of two i64 bounds needs 65 bits, so count in 128-bit arithmetic.
+        let diff = (self.last as i128 - self.first as i128).unsigned_abs();
+        let step = (self.step as i128).unsigned_abs();
+        usize::try_from(diff / step + 1).unwrap_or(usize::MAX)
     }
 
     /// Returns true if the range contains the given value.
@@ -90,10 +91,16 @@ impl ElixirRange {
         if self.is_empty() {
             return false;
         }
-        if self.step > 0 {
-            value >= self.first && value <= self.last && (value - self.first) % self.step == 0
+        let (first, last, step, value) = (
+            self.first as i128,
+            self.last as i128,
+            self.step as i128,
+            value as i128,
+        );
+        if step > 0 {
+            value >= first && value <= last && (value - first) % step == 0
         } else {
-            value <= self.first && value >= self.last && (self.first - value) % (-self.step) == 0
+            value <= first && value >= last && (first - value) % (-step) == 0
         }
     }
 
@@ -178,7 +185,10 @@ impl Iterator for RangeIterator {
             if value == self.range.last {
                 self.done = true;
             } else {
-                self.current = self.current.saturating_add(self.range.step);
+                match self.current.checked_add(self.range.step) {
+                    Some(next) => self.current = next,
+                    None => self.done = true,
+                }
             }
         } else {
             if value < self.range.last {
@@ -188,7 +198,10 @@ impl Iterator for RangeIterator {
             if value == self.range.last {
                 self.done = true;
             } else {
-                self.current = self.current.saturating_add(self.range.step);
+                match self.current.checked_add(self.range.step) {
+                    Some(next) => self.current = next,
+                    None => self.done = true,
+                }
             }
         }
 
@@ -199,16 +212,21 @@ impl Iterator for RangeIterator {
         if self.done || self.range.is_empty() {
             return (0, Some(0));
         }
-        let remaining = if self.range.step > 0 {
-            if self.current > self.range.last {
+        let (current, last, step) = (
+            self.current as i128,
+            self.range.last as i128,
+            self.range.step as i128,
+        );
+        let remaining = if step > 0 {
+            if current > last {
                 0
             } else {
-                (((self.range.last - self.current) / self.range.step) + 1) as usize
+                usize::try_from((last - current) / step + 1).unwrap_or(usize::MAX)
             }
-        } else if self.current < self.range.last {
+        } else if current < last {
             0
         } else {
-            (((self.current - self.range.last) / (-self.range.step)) + 1) as usize
+            usize::try_from((current - last) / (-step) + 1).unwrap_or(usize::MAX)
         };
         (remaining, Some(remaining))
     }
